@@ -96,6 +96,30 @@ def make_instances(ctx):
     for _ in range(nr):
         cands += [("rnd-arith-big", conclib.arith_big(rng, rng.choice(["QF_LRA", "QF_LIA"]))), ("rnd-uf", conclib.uf_random(rng)),
                   ("rnd-lia-cuts", conclib.lia_cuts(rng)), ("trivial", conclib.trivial(rng))]
+    # option vectors that change what runs before / instead of the CDCL search: the default is :incremental true
+    # (no SatELite preprocessing at all); :incremental false turns variable elimination / subsumption on;
+    # :pure-lookahead uses the lookahead solver; :produce-proofs switches the preprocessor off again and logs
+    # the resolution proof.  Small instances on which elimination really happens get an exhaustive sweep of the
+    # stop moment (marked sweep).
+    NONINC = [(":incremental", "false")]
+    small = [("php-bool", conclib.pigeon("QF_UF", 4, 3, rng=rng)), ("php-bool", conclib.pigeon("QF_UF", 5, 4, rng=rng)),
+             ("xor-chain-unsat", conclib.xor_chain(rng, rng.randint(6, 10), False)), ("xor-chain-sat", conclib.xor_chain(rng, rng.randint(6, 10), True)),
+             ("3sat-small", conclib.sat3(rng, 20, 4.3)), ("3sat-small", conclib.sat3(rng, 24, 4.0)),
+             ("php-lra", conclib.pigeon("QF_LRA", 4, 3, rng=rng)), ("php-lia-big", conclib.pigeon("QF_LIA", 4, 3, rng=rng, big=True)),
+             ("rnd-uf", conclib.uf_random(rng))]
+    if not ctx.quick:
+        small += [("php-bool", conclib.pigeon("QF_UF", 6, 5, rng=rng)), ("xor-chain-unsat", conclib.xor_chain(rng, 14, False)),
+                  ("3sat-small", conclib.sat3(rng, 30, 4.2)), ("php-lra", conclib.pigeon("QF_LRA", 5, 4, rng=rng, big=True)),
+                  ("rnd-arith-big", conclib.arith_big(rng, "QF_LRA")), ("rnd-lia-cuts", conclib.lia_cuts(rng))]
+    for fam, txt in small:
+        cands.append((fam + "+noninc!sweep", conclib.with_options(txt, NONINC)))
+    for fam, txt in small[:3] + small[6:7]:
+        cands.append((fam + "+lookahead!sweep", conclib.with_options(txt, [(":pure-lookahead", "true")])))
+        cands.append((fam + "+noninc+proofs!sweep", conclib.with_options(txt, [(":produce-proofs", "true")] + NONINC)))
+    # the medium instances again with the preprocessor on
+    for fam, txt in list(cands[:7 if ctx.quick else 13]):
+        if not fam.startswith("corpus"):
+            cands.append((fam + "+noninc", conclib.with_options(txt, NONINC)))
     corpus = []
     cdir = os.path.join(vlib.VERIF, "corpus", "C25")
     if os.path.isdir(cdir):
@@ -108,8 +132,9 @@ def make_instances(ctx):
         t0 = time.time()
         rc, o, e = vlib.run_opensmt(t + "(check-sat)\n", timeout=5)
         dt = time.time() - t0
-        if rc == 0 and o.strip() in ("sat", "unsat"):
-            out.append(dict(family=fam, text=t, ref=o.strip(), secs=dt))
+        ans = [l for l in o.split("\n") if l.strip() in ("sat", "unsat")]
+        if rc == 0 and len(ans) == 1:
+            out.append(dict(family=fam.split("!")[0], sweep=fam.endswith("!sweep"), text=t, ref=ans[0].strip(), secs=dt))
     return out
 
 
@@ -154,6 +179,10 @@ def run(ctx):
     ctx.note("translator: %s; anchors %s" % (_tr.get("detail"), _tr.get("anchors")))
     for n in _tr.get("notes", []):
         ctx.note("translator: " + n)
+    if _tr.get("ok") and _tr.get("polls_elsewhere"):
+        ctx.tie_broken("poll-inside-atomic-work", "%d call(s) of okContinue() outside the poll sites of the model (solve_, search, the loop "
+                       "heads of eliminate / backwardSubsumptionCheck): the work between two polls is no longer one sound step "
+                       "(c25_model_matches_source_polls)" % _tr["polls_elsewhere"])
     if _tr.get("ok") and not _tr["polls_lookahead"]:
         ctx.note("liveness gap (allowed by C25): LookaheadSMTSolver::solve_ never polls the stop flag; a request during a lookahead "
                  "search is ignored until the search ends (theorem lookahead_ignores_stop)")
@@ -264,6 +293,11 @@ def run(ctx):
             for k, it in enumerate(insts):
                 n0 = N.get(k, 0)
                 pts = {0, 1, 2, max(0, n0 - 2), max(0, n0 - 1), n0, n0 + 1} | {ctx.rng.randrange(n0 + 3) for _ in range(6 if ctx.quick else 14)}
+                if it.get("sweep") and n0 <= (700 if ctx.quick else 3000):
+                    # every stop moment, global (so that it can be reset and the NEXT check-sat judged)
+                    for n in range(n0 + 1):
+                        ptr.append((k, "poll", "global", n))
+                    pts = {p_ for p_ in pts if ctx.rng.random() < 0.3}
                 for n in sorted(pts):
                     ptr.append((k, "poll", ctx.rng.choice(["local", "global"]), n))
                 if n0 > 0:      # the request lands on the last poll and is reset: the next check-sat must still be right
@@ -373,7 +407,7 @@ def trial_line(t):
 
 def save_run(name, paths, trials, upto):
     """everything needed to repeat a harness process: the instance files and the trial list up to the failing trial"""
-    d = os.path.join(vlib.VERIF, "replays", "C25", name)
+    d = os.path.join(os.environ.get("VERIF_REPLAY_DIR", os.path.join(vlib.VERIF, "replays")), "C25", name)
     if name in _saved or len(_saved) >= 8:
         return "see %s (first occurrence kept)" % d
     _saved.add(name)
